@@ -525,6 +525,31 @@ def sp_facts():
     return sets_sp, trips
 
 
+def helper_fact():
+    """the shape helper of the sensitivity functions (`self._SAUtil`, ode_utils.shapeAdjust(num_state, num_param)): built once in
+    the constructor (False) or from the current sizes whenever it is read (True: a property)"""
+    want = "ode_utils.shapeAdjust(self.num_state, self.num_param)"
+    init = find_method(DET, "DeterministicOde", "__init__")
+    in_init = [ast.unparse(n.value) for n in ast.walk(init) if isinstance(n, ast.Assign) and ast.unparse(n.targets[0]) == "self._SAUtil"]
+    try:
+        prop = find_method(DET, "DeterministicOde", "_SAUtil")
+    except Unsupported:
+        prop = None
+    if prop is not None:
+        body = [n for n in prop.body if not (isinstance(n, ast.Expr) and isinstance(n.value, ast.Constant))]
+        if (not in_init and len(body) == 1 and isinstance(body[0], ast.Return) and ast.unparse(body[0].value) == want
+                and [ast.unparse(dc) for dc in prop.decorator_list] == ["property"]):
+            return True
+        raise Unsupported("_SAUtil property of an unknown shape")
+    if in_init == [want]:
+        # assigned anywhere else as well?  (a refresh in a mutator would be another design: not recognised)
+        cls = find_class(parse(DET), "DeterministicOde")
+        others = [n for n in ast.walk(cls) if isinstance(n, ast.Assign) and ast.unparse(n.targets[0]) == "self._SAUtil"]
+        if len(others) == 1:
+            return False
+    raise Unsupported("_SAUtil wiring")
+
+
 def coq_str_list(xs):
     return "[" + "; ".join('"%s"' % x for x in xs) + "]"
 
@@ -535,6 +560,7 @@ BAD_DEFAULT = """Definition facts : facts := {|
   f_master_trip_first := true; f_params_at_call := false; f_getters_fresh := false;
   f_setter_sets_sp := false; f_sp_change_trips := false |}.
 Definition getters_note := "".
+Definition helper_current := false.
 """
 
 HEAD = ("From Coq Require Import List String.\nFrom PV Require Import Canary.\nImport ListNotations.\n"
@@ -557,7 +583,7 @@ def extract():
     return dict(mutators=table, canary=names, registered=[(r[0], r[1]) for r in regs],
                 cond_missing=cond_missing, cond_flag=cond_flag, trip_value=trip_value, reset_value=reset_value,
                 master_trip_first=trip_first, params_at_call=at_call, getters_fresh=fresh, getters_note=why,
-                setter_sets_sp=sets_sp, sp_change_trips=sp_trips)
+                setter_sets_sp=sets_sp, sp_change_trips=sp_trips, helper_current=helper_fact())
 
 
 def generate():
@@ -573,12 +599,13 @@ def generate():
                 "  f_master_trip_first := %s; f_params_at_call := %s; f_getters_fresh := %s;\n"
                 "  f_setter_sets_sp := %s; f_sp_change_trips := %s |}.\n"
                 "Definition getters_note := \"%s\".\n"
+                "Definition helper_current := %s.\n"
                 % ("; ".join('("%s", %s)' % (m, b(t)) for m, t in d["mutators"]),
                    coq_str_list(d["canary"]),
                    "; ".join('("%s", %s)' % (e, b(m)) for e, m in d["registered"]),
                    b(d["cond_missing"]), b(d["cond_flag"]), b(d["trip_value"]), b(d["reset_value"]),
                    b(d["master_trip_first"]), b(d["params_at_call"]), b(d["getters_fresh"]),
-                   b(d["setter_sets_sp"]), b(d["sp_change_trips"]), d["getters_note"].replace('"', "'")))
+                   b(d["setter_sets_sp"]), b(d["sp_change_trips"]), d["getters_note"].replace('"', "'"), b(d["helper_current"])))
     except (Unsupported, ValueError, TypeError, IndexError, KeyError, AttributeError, AssertionError, RecursionError) as u:   # any surprise in the source = fail closed
         return HEAD + failed("CanaryGen", str(u)) + BAD_DEFAULT
 
